@@ -240,27 +240,6 @@ def lqr {ns nc : Nat} (sol : Solver α ns nc) (S : Sys α ns nc) (P : Prob α ns
     (x0 : Vec α ns) (ubar : Nat → Vec α nc) : Out α ns nc :=
   lqrAt sol S P dt x0 ubar (resetClock 0) (resetClock 0)
 
-/-- how `LQR.forward` can fail on inputs the model can express -/
-inductive LqrError where
-  /-- `u_traj` given with a number of steps other than `T` (the code raises in `torch.cat((x_traj, u_traj))`) -/
-  | nominalLength
-  /-- `cholesky(Quu)` raised at some step of the backward loop -/
-  | notPD
-deriving DecidableEq, Repr
-
-/-- `LQR.forward(x_init, dt, u_traj)` with its error branches: a `u_traj` of the wrong length and a `Quu` that Cholesky rejects
-raise; otherwise `lqr` with `nomOf u_traj` (where `nomOf` never pads, because the length is `T`). Shape / dtype asserts
-(`x_init.ndim == 2`, equal dtypes and devices) have no counterpart: the model is typed. -/
-def lqrChecked {ns nc : Nat} (sol : Solver α ns nc) (S : Sys α ns nc) (P : Prob α ns nc) (dt : Nat)
-    (x0 : Vec α ns) (utraj : Option (List (Vec α nc))) : Except LqrError (Out α ns nc) :=
-  let lenOK := match utraj with
-    | none => true
-    | some l => l.length == P.T
-  if lenOK then
-    let o := lqr sol S P dt x0 (nomOf utraj)
-    if o.gains.all (fun g => sol.accepts g.Quu) then .ok o else .error .notPD
-  else .error .nominalLength
-
 /-- The call as a transition of the system object's clock: entered with the clock at `clk`, the first
 `reset()` puts it to 0, `runsys` advances it `T-1` times, (`set_refpoint` may write it), the second `reset()`
 puts it to 0 again and the `T` forward calls leave it at `T`. -/
@@ -368,6 +347,28 @@ structure Best (α : Type) (ns nc : Nat) where
 def nomOf {nc : Nat} : Option (List (Vec α nc)) → Nat → Vec α nc
   | none => fun _ => vzero
   | some l => ofList l
+
+/-- how `LQR.forward` can fail on inputs the model can express -/
+inductive LqrError where
+  /-- `u_traj` given with a number of steps other than `T` (the code raises in `torch.cat((x_traj, u_traj))`) -/
+  | nominalLength
+  /-- `cholesky(Quu)` raised at some step of the backward loop -/
+  | notPD
+deriving DecidableEq, Repr
+
+/-- `LQR.forward(x_init, dt, u_traj)` with its error branches: a `u_traj` of the wrong length and a `Quu` that Cholesky rejects
+raise; otherwise `lqr` with `nomOf u_traj` (where `nomOf` never pads, because the length is `T`). Shape / dtype asserts
+(`x_init.ndim == 2`, equal dtypes and devices) have no counterpart: the model is typed. -/
+def nominalOK {nc : Nat} (T : Nat) : Option (List (Vec α nc)) → Bool
+  | none => true
+  | some l => l.length == T
+
+def lqrChecked {ns nc : Nat} (sol : Solver α ns nc) (S : Sys α ns nc) (P : Prob α ns nc) (dt : Nat)
+    (x0 : Vec α ns) (utraj : Option (List (Vec α nc))) : Except LqrError (Out α ns nc) :=
+  if nominalOK P.T utraj then
+    if (lqr sol S P dt x0 (nomOf utraj)).gains.all (fun g => sol.accepts g.Quu) then .ok (lqr sol S P dt x0 (nomOf utraj))
+    else .error .notPD
+  else .error .nominalLength
 
 /-- the `while self.stepper.continual()` loop, at most `fuel` iterations (the stepper stops after
 `max_steps`, so `fuel = max_steps + 1` loses nothing); returns `best['u']`, the stepper, the iteration count -/
